@@ -979,6 +979,9 @@ class TestResult(unittest.TestResult):
             self._restoreStdStreams()
         unittest.TestResult.addSkip(self, test, reason)
         self.options.output.test_skipped(test, reason)
+        # tearDown and cleanups still run after a skip raised in the test:
+        # keep buffering their output until ``stopTest``.
+        self._setUpStdStreams()
 
     def addSubTest(self, test, subtest, exc_info):
         if exc_info is None:
